@@ -43,7 +43,7 @@ import (
 
 // Mut is one structural mutation of the ciphertext tree.
 type Mut struct {
-	Op     string `json:"op"`     // remove | dup | dupalt | nest | attr | rmattr | text | b64 | comment | cdata | child | rename | space | keychain | moveout | movein | retrieval | setid | addkey
+	Op     string `json:"op"`     // remove | dup | dupalt | nest | attr | rmattr | text | b64 | comment | cdata | child | rename | space | keychain | moveout | movein | retrieval | setid | addkey | reflist
 	Target string `json:"target"` // data | data.em | data.ki | data.cd | data.cv | key | key.em | key.dm | key.ki | key.x509 | key.cd | key.cv
 	Arg    string `json:"arg,omitempty"`
 	N      int    `json:"n,omitempty"`
@@ -59,7 +59,7 @@ type BMut struct {
 
 // Case is one attacked ciphertext.
 type Case struct {
-	Kind  string `json:"kind"`  // control | len | pad | gcm | cert | plain | retr | mut | xml
+	Kind  string `json:"kind"`  // control | len | pad | gcm | cert | plain | retr | refs | keysize | mut | xml
 	Entry string `json:"entry"` // decrypt | decrypt-key | sp
 
 	Block     string `json:"block,omitempty"`     // aes128-cbc | aes192-cbc | aes256-cbc | tripledes-cbc | aes128-gcm
@@ -105,6 +105,15 @@ type Case struct {
 	KeyID     string `json:"key_id,omitempty"`
 	HasKeyID  bool   `json:"has_key_id,omitempty"`
 	SecondKey string `json:"second_key,omitempty"` // "" | before | after
+	// kind keysize: the data cipher value is a VALID ciphertext of the plaintext under ActualAlg with a key of
+	// that algorithm's size, while the EncryptionMethod declares Block: the key handed over (direct: KeyBytes;
+	// RSA transports: WrappedKey) has a size that is right for another variant but wrong for the declared one.
+	ActualAlg string `json:"actual_alg,omitempty"` // aes128-cbc | aes192-cbc | aes256-cbc | tripledes-cbc | aes128-gcm | aes192-gcm | aes256-gcm
+	// kind refs (and any kind): xenc:ReferenceList/xenc:DataReference inside the real / the second EncryptedKey:
+	// "" none | nouri (no URI attribute) | empty (URI="") | hash (URI="#") | match (URI="#<Id of EncryptedData>") | other | nohash | two (nouri + match)
+	RefList       string `json:"ref_list,omitempty"`
+	SecondRefList string `json:"second_ref_list,omitempty"`
+	DataIDMode    string `json:"data_id_mode,omitempty"` // Id attribute of EncryptedData: "" (present) | absent | empty
 	// sp entry: configuration of the ServiceProvider the clause does not mention
 	SPAllowIDPInitiated bool `json:"sp_allow_idp_initiated,omitempty"`
 	// kind mut
@@ -133,6 +142,18 @@ func blockURI(b string) string {
 	}
 	return ""
 }
+
+func actualURI(b string) string {
+	switch b {
+	case "aes192-gcm":
+		return refenc.AES192GCM
+	case "aes256-gcm":
+		return refenc.AES256GCM
+	}
+	return blockURI(b)
+}
+
+var refListVariants = []string{"", "nouri", "empty", "hash", "match", "other", "nohash", "two"}
 
 func spec(b string) refenc.BlockSpec { s, _ := refenc.Spec(blockURI(b)); return s }
 
@@ -360,6 +381,21 @@ func (c Case) build() (*tree, error) {
 		}
 		t.value = v
 		setCV(data, v)
+	case "keysize":
+		as, ok := refenc.Spec(actualURI(c.ActualAlg))
+		if !ok {
+			return nil, fmt.Errorf("unknown actual algorithm")
+		}
+		wrong := c.KeyBytes
+		if c.Transport != "direct" {
+			wrong = c.WrappedKey
+		}
+		v, err := refenc.EncryptBlock(as.Alg, wrong, expand(c.Seed, "actual-iv", as.IVLen), plain, c.Filler)
+		if err != nil {
+			return nil, err
+		}
+		t.value = v
+		setCV(data, v)
 	case "gcm":
 		v := append([]byte{}, t.value...)
 		switch c.GCMOp {
@@ -486,8 +522,18 @@ func (c Case) build() (*tree, error) {
 			data.InsertChildAt(1, ki)
 		}
 	}
+	var second *etree.Element
 	if c.SecondKey != "" && key != nil {
-		t.addKey(c.SecondKey == "before", "_c11-other", c.Seed)
+		second = t.addKey(c.SecondKey == "before", "_c11-other", c.Seed)
+	}
+	t.addRefList(key, c.RefList)
+	t.addRefList(second, c.SecondRefList)
+	switch c.DataIDMode {
+	case "absent":
+		data.RemoveAttr("Id")
+	case "empty":
+		data.RemoveAttr("Id")
+		data.CreateAttr("Id", "")
 	}
 	if c.HasURI {
 		t.addRetrieval(c.URI, true)
@@ -514,9 +560,42 @@ func (t *tree) addRetrieval(uri string, first bool) {
 
 // addKey adds an EncryptedKey meant for ANOTHER recipient (same shape as the real one,
 // other Id, cipher value wrapped to sp2's certificate) next to the real key.
-func (t *tree) addKey(before bool, id string, seed []byte) {
-	if t.key == nil || t.key.Parent() == nil {
+// addRefList appends xenc:ReferenceList/xenc:DataReference to an EncryptedKey.
+func (t *tree) addRefList(keyEl *etree.Element, variant string) {
+	if keyEl == nil || variant == "" {
 		return
+	}
+	rl := keyEl.CreateElement(t.opt.XencTag("ReferenceList"))
+	add := func(uri string, has bool) {
+		dr := rl.CreateElement(t.opt.XencTag("DataReference"))
+		if has {
+			dr.CreateAttr("URI", uri)
+		}
+	}
+	switch variant {
+	case "nouri":
+		add("", false)
+	case "empty":
+		add("", true)
+	case "hash":
+		add("#", true)
+	case "match":
+		add("#_c11-data", true)
+	case "other":
+		add("#_c11-elsewhere", true)
+	case "nohash":
+		add("_c11-data", true)
+	case "two":
+		add("", false)
+		add("#_c11-data", true)
+	default:
+		add(variant, true) // mutations may pass a literal URI
+	}
+}
+
+func (t *tree) addKey(before bool, id string, seed []byte) *etree.Element {
+	if t.key == nil || t.key.Parent() == nil {
+		return nil
 	}
 	other := t.key.Copy()
 	other.RemoveAttr("Id")
@@ -535,6 +614,7 @@ func (t *tree) addKey(before bool, id string, seed []byte) {
 	} else {
 		par.InsertChildAt(t.key.Index()+1, other)
 	}
+	return other
 }
 
 // ---------------------------------------------------------------- structural mutations
@@ -700,6 +780,11 @@ func (t *tree) apply(m Mut, seed []byte) bool {
 		if inner != nil {
 			cur.AddChild(inner)
 		}
+	case "reflist": // xenc:ReferenceList/DataReference (variant or literal URI in Arg) inside the target EncryptedKey
+		if el.Tag != "EncryptedKey" {
+			return false
+		}
+		t.addRefList(el, m.Arg)
 	case "retrieval": // ds:RetrievalMethod URI=Arg in EncryptedData/KeyInfo (N odd: after what is there)
 		t.addRetrieval(m.Arg, m.N%2 == 0)
 	case "setid": // Id attribute of the target (EncryptedKey / EncryptedData) := Arg; N odd: removed
@@ -859,6 +944,10 @@ func (c Case) describe() string {
 		s += fmt.Sprintf(" op=%s pos=%d", c.GCMOp, c.GCMPos)
 	case "cert":
 		s += " embedded-cert=" + c.Cert + " x509data-sibling=" + c.CertSib
+	case "keysize":
+		s += " ciphertext-made-with=" + c.ActualAlg
+	case "refs":
+		s += fmt.Sprintf(" second-key=%q reference-list=%q second-reference-list=%q data-id=%q", c.SecondKey, c.RefList, c.SecondRefList, c.DataIDMode)
 	case "retr":
 		s += fmt.Sprintf(" retrieval-uri=%q(present=%v) key-id=%q(present=%v) second-key=%q", c.URI, c.HasURI, c.KeyID, c.HasKeyID, c.SecondKey)
 	case "mut":
@@ -901,6 +990,12 @@ func wellFormed(c Case) bool {
 	if c.HasWrappedKey && len(c.WrappedKey) > 100 {
 		return false
 	}
+	if len(c.RefList) > 300 || len(c.SecondRefList) > 300 || (c.SecondKey != "" && c.SecondKey != "before" && c.SecondKey != "after") {
+		return false
+	}
+	if c.DataIDMode != "" && c.DataIDMode != "absent" && c.DataIDMode != "empty" {
+		return false
+	}
 	if c.Entry == "sp" && c.SPKey != "sp" && c.SPKey != "spec" {
 		return false
 	}
@@ -911,6 +1006,22 @@ func wellFormed(c Case) bool {
 	}
 	switch c.Kind {
 	case "control", "len", "plain", "mut":
+	case "keysize":
+		as, ok := refenc.Spec(actualURI(c.ActualAlg))
+		if !ok || as.GCM != s.GCM {
+			return false
+		}
+		if c.Transport == "direct" {
+			if c.KeyKind != "bytes" || len(c.KeyBytes) != as.KeyLen || c.Entry != "decrypt" {
+				return false
+			}
+		} else if !c.HasWrappedKey || len(c.WrappedKey) != as.KeyLen {
+			return false
+		}
+	case "refs":
+		if c.Transport == "direct" {
+			return false
+		}
 	case "retr":
 		if c.Transport == "direct" || len(c.URI) > 2000 || len(c.KeyID) > 2000 {
 			return false
@@ -940,7 +1051,7 @@ func wellFormed(c Case) bool {
 // is structurally what refenc built, the right key is handed over and the wrapped key
 // is the content key.
 func (c Case) intact() bool {
-	if c.Kind == "mut" || c.Kind == "xml" || c.Kind == "retr" || c.HasURI || c.HasKeyID || c.SecondKey != "" || len(c.Muts) > 0 || c.HasWrappedKey || (c.Kind == "len" && c.OnKey) {
+	if c.Kind == "mut" || c.Kind == "xml" || c.Kind == "retr" || c.Kind == "refs" || c.Kind == "keysize" || c.RefList != "" || c.SecondRefList != "" || c.DataIDMode != "" || c.HasURI || c.HasKeyID || c.SecondKey != "" || len(c.Muts) > 0 || c.HasWrappedKey || (c.Kind == "len" && c.OnKey) {
 		return false
 	}
 	// Whether the package manages to unwrap the key at all (digest / MGF reading) is
@@ -1068,6 +1179,12 @@ func check(c Case) pbt.Result {
 	if c.SecondKey != "" {
 		cl = append(cl, "keys:two-recipients")
 	}
+	if c.RefList != "" || c.SecondRefList != "" {
+		cl = append(cl, "reflist:"+c.RefList+"/"+c.SecondRefList)
+	}
+	if c.DataIDMode != "" {
+		cl = append(cl, "data-id:"+c.DataIDMode)
+	}
 	if c.Entry == "decrypt-key" && t.key == nil {
 		return pbt.Result{Skip: true}
 	}
@@ -1171,6 +1288,29 @@ func check(c Case) pbt.Result {
 			res.Classes = append(res.Classes, "outcome:error")
 		}
 		cl = res.Classes
+
+		// a key whose size is not the size of the DECLARED algorithm => must reject, whatever
+		// else that size would be right for (the tree is structurally what the reference built)
+		if c.Entry == "decrypt" && c.Kind != "mut" && c.Kind != "xml" && len(c.Muts) == 0 {
+			want := spec(c.Block).KeyLen
+			wrongDirect := c.Transport == "direct" && c.KeyKind == "bytes" && len(c.KeyBytes) != want
+			wrongWrapped := c.Transport != "direct" && c.KeyKind == "rsa-ptr" && c.HasWrappedKey && len(c.WrappedKey) != want
+			if wrongDirect || wrongWrapped {
+				n := len(c.KeyBytes)
+				if wrongWrapped {
+					n = len(c.WrappedKey)
+				}
+				if n == 8 || n == 16 || n == 24 || n == 32 {
+					cl = append(cl, "must-reject:key-size-of-another-variant")
+				} else {
+					cl = append(cl, "must-reject:key-size")
+				}
+				res.Classes = cl
+				if err == nil {
+					return fail(c, cl, "a %d-octet key was accepted for %s, which needs %d octets (returned %d octets of 'plaintext')", n, blockURI(c.Block), want, len(out))
+				}
+			}
+		}
 
 		// embedded certificate that does not match the supplied RSA key => must reject
 		if c.Kind == "cert" && c.Entry == "decrypt" || c.Kind == "cert" && c.Entry == "decrypt-key" {
@@ -1540,7 +1680,7 @@ func genFragment(t *rapid.T, label string, withHash bool) string {
 func genMut(t *rapid.T, i int) Mut {
 	l := fmt.Sprintf("m%d-", i)
 	m := Mut{Target: rapid.SampledFrom(roles).Draw(t, l+"target")}
-	m.Op = rapid.SampledFrom([]string{"remove", "dup", "dupalt", "nest", "attr", "attr", "attr", "rmattr", "text", "b64", "b64", "comment", "cdata", "child", "rename", "space", "keychain", "moveout", "movein", "retrieval", "retrieval", "setid", "addkey"}).Draw(t, l+"op")
+	m.Op = rapid.SampledFrom([]string{"remove", "dup", "dupalt", "nest", "attr", "attr", "attr", "rmattr", "text", "b64", "b64", "comment", "cdata", "child", "rename", "space", "keychain", "moveout", "movein", "retrieval", "retrieval", "setid", "addkey", "reflist"}).Draw(t, l+"op")
 	switch m.Op {
 	case "attr", "dupalt", "keychain":
 		m.Arg = rapid.SampledFrom(algPool).Draw(t, l+"alg")
@@ -1556,6 +1696,9 @@ func genMut(t *rapid.T, i int) Mut {
 		m.Target = rapid.SampledFrom([]string{"key", "key", "key", "data"}).Draw(t, l+"id-target")
 		m.Arg = genFragment(t, l+"id", false)
 		m.N = rapid.IntRange(0, 3).Draw(t, l+"n")
+	case "reflist":
+		m.Target = "key"
+		m.Arg = rapid.SampledFrom(append(refListVariants[1:], "#it's", "##", "# ")).Draw(t, l+"reflist")
 	case "addkey":
 		m.Target = "key"
 		m.Arg = genFragment(t, l+"id", false)
@@ -1576,7 +1719,7 @@ func genMut(t *rapid.T, i int) Mut {
 
 func gen(t *rapid.T) Case {
 	var c Case
-	c.Kind = rapid.SampledFrom([]string{"len", "len", "len", "pad", "pad", "gcm", "gcm", "cert", "plain", "retr", "retr", "mut", "mut", "mut", "mut", "xml", "xml", "control"}).Draw(t, "kind")
+	c.Kind = rapid.SampledFrom([]string{"len", "len", "len", "pad", "pad", "gcm", "gcm", "cert", "plain", "retr", "retr", "refs", "refs", "keysize", "keysize", "mut", "mut", "mut", "mut", "xml", "xml", "control"}).Draw(t, "kind")
 	if c.Kind == "xml" {
 		c.Entry = "decrypt"
 		files := append([]string{"gen", "gen", "gen"}, corpusFiles()...)
@@ -1615,12 +1758,58 @@ func gen(t *rapid.T) Case {
 		s = spec(c.Block)
 		c.Key = genBytes(t, s.KeyLen, "key2")
 		c.IV = genBytes(t, s.IVLen, "iv2")
-	case "cert", "retr":
+	case "cert", "retr", "refs":
 		if c.Transport == "direct" {
 			c.Transport, c.Digest = "pkcs1", ""
 		}
 	}
 	genEntry(t, &c)
+	if c.Kind == "keysize" {
+		// a key of a size that is valid for ANOTHER variant of the family, and a ciphertext that
+		// really opens under it
+		var fam []string
+		if s.GCM {
+			fam = []string{"aes128-gcm", "aes192-gcm", "aes256-gcm"}
+		} else {
+			fam = []string{"aes128-cbc", "aes192-cbc", "aes256-cbc", "tripledes-cbc"}
+		}
+		var other []string
+		for _, a := range fam {
+			if as, _ := refenc.Spec(actualURI(a)); as.KeyLen != s.KeyLen {
+				other = append(other, a)
+			}
+		}
+		c.ActualAlg = rapid.SampledFrom(other).Draw(t, "actual-alg")
+		as, _ := refenc.Spec(actualURI(c.ActualAlg))
+		wrong := genBytes(t, as.KeyLen, "wrong-size-key")
+		if c.Transport == "direct" {
+			c.Entry, c.KeyKind, c.KeyBytes = "decrypt", "bytes", wrong
+		} else {
+			if c.Entry == "decrypt-key" {
+				c.Entry = "decrypt"
+			}
+			if c.Entry == "decrypt" {
+				c.KeyKind, c.KeyBytes = "rsa-ptr", nil
+			}
+			c.HasWrappedKey, c.WrappedKey = true, wrong
+		}
+		c.PlainKind, c.Plain = "bytes", rapid.SliceOfN(rapid.Byte(), 0, 70).Draw(t, "keysize-plain")
+		return c
+	}
+	if c.Kind == "refs" {
+		if c.Entry != "sp" && rapid.IntRange(0, 3).Draw(t, "refs-sp") > 0 {
+			c.Entry, c.KeyKind, c.KeyBytes = "sp", "", nil
+			c.SPKey = "sp"
+			c.SPAllowIDPInitiated = rapid.Bool().Draw(t, "allow-idp-initiated")
+		}
+		c.Sibling = rapid.IntRange(0, 3).Draw(t, "refs-sibling") > 0
+		c.SecondKey = rapid.SampledFrom([]string{"before", "after", "before", ""}).Draw(t, "second-key")
+		c.RefList = rapid.SampledFrom(refListVariants).Draw(t, "ref-list")
+		if c.SecondKey != "" {
+			c.SecondRefList = rapid.SampledFrom(refListVariants).Draw(t, "second-ref-list")
+		}
+		c.DataIDMode = rapid.SampledFrom([]string{"", "", "absent", "empty"}).Draw(t, "data-id")
+	}
 	if c.Kind == "retr" {
 		if c.Entry != "sp" && rapid.IntRange(0, 2).Draw(t, "retr-sp") > 0 {
 			c.Entry, c.KeyKind, c.KeyBytes = "sp", "", nil
@@ -1941,6 +2130,102 @@ func enumRetrieval(_ string, emit func(Case)) {
 	}
 }
 
+// several sibling EncryptedKey elements with ReferenceList/DataReference children x Id of the EncryptedData
+func enumRefs(_ string, emit func(Case)) {
+	i := 0
+	mk := func(entry string, sib bool, second, r1, r2, idm string) {
+		c := baseCase("refs", entry, []string{"aes128-cbc", "aes128-gcm"}[i%2], []string{"oaep-mgf1p", "pkcs1"}[(i/2)%2], []string{"sha1", ""}[(i/2)%2], fmt.Sprintf("refs/%d", i))
+		c.Sibling, c.SecondKey, c.RefList, c.SecondRefList, c.DataIDMode = sib, second, r1, r2, idm
+		c.SPAllowIDPInitiated = i%3 == 0
+		if entry != "sp" {
+			c.KeyKind = "rsa-ptr"
+		}
+		c.XencPrefix, c.DsPrefix = spellAt(i / 5)
+		i++
+		emit(c)
+	}
+	for _, idm := range []string{"", "absent", "empty"} {
+		for _, r1 := range refListVariants {
+			mk("sp", true, "", r1, "", idm)
+			mk("sp", false, "", r1, "", idm)
+			mk("decrypt", false, "", r1, "", idm)
+			mk("decrypt-key", false, "", r1, "", idm)
+			for _, second := range []string{"before", "after"} {
+				for _, r2 := range refListVariants {
+					mk("sp", true, second, r1, r2, idm)
+				}
+				mk("sp", false, second, r1, "nouri", idm)
+			}
+		}
+	}
+}
+
+// a key of a size that is right for another variant of the cipher family, with a cipher value that
+// really opens under that other variant: direct []byte keys and RSA-wrapped keys, Decrypt and the SP
+func enumKeySizes(_ string, emit func(Case)) {
+	i := 0
+	for _, declared := range blocks {
+		ds := spec(declared)
+		fam := []string{"aes128-cbc", "aes192-cbc", "aes256-cbc", "tripledes-cbc"}
+		if ds.GCM {
+			fam = []string{"aes128-gcm", "aes192-gcm", "aes256-gcm"}
+		}
+		for _, actual := range fam {
+			as, _ := refenc.Spec(actualURI(actual))
+			if as.KeyLen == ds.KeyLen {
+				continue
+			}
+			for _, pl := range []int{0, 5, 16, 40} {
+				for _, delivery := range []string{"direct", "oaep-decrypt", "pkcs1-decrypt", "oaep-sp-nested", "pkcs1-sp-sibling"} {
+					id := fmt.Sprintf("keysize/%s/%s/%d/%s", declared, actual, pl, delivery)
+					c := baseCase("keysize", "decrypt", declared, "direct", "", id)
+					c.ActualAlg = actual
+					c.PlainKind, c.Plain = "bytes", expand([]byte(id), "plain", pl)
+					wrong := expand([]byte(id), "wrong", as.KeyLen)
+					switch delivery {
+					case "direct":
+						c.KeyKind, c.KeyBytes = "bytes", wrong
+					default:
+						if strings.HasPrefix(delivery, "oaep") {
+							c.Transport, c.Digest = "oaep-mgf1p", "sha1"
+						} else {
+							c.Transport = "pkcs1"
+						}
+						c.HasWrappedKey, c.WrappedKey, c.KeyKind = true, wrong, "rsa-ptr"
+						if strings.Contains(delivery, "-sp-") {
+							c.Entry, c.KeyKind = "sp", ""
+							c.Sibling = strings.HasSuffix(delivery, "sibling")
+						}
+					}
+					c.XencPrefix, c.DsPrefix = spellAt(i)
+					i++
+					emit(c)
+				}
+			}
+		}
+	}
+	// and the bare sizes 8/16/24/32 (random cipher value of valid shape) against every declared algorithm
+	for _, declared := range blocks {
+		ds := spec(declared)
+		for _, n := range []int{8, 16, 24, 32} {
+			if n == ds.KeyLen {
+				continue
+			}
+			for _, tr := range []tcombo{{"direct", ""}, {"oaep-mgf1p", "sha1"}} {
+				id := fmt.Sprintf("keysize-bare/%s/%d/%s", declared, n, tr.transport)
+				c := baseCase("len", "decrypt", declared, tr.transport, tr.digest, id)
+				c.CipherValue = expand([]byte(id), "value", ds.IVLen+2*ds.Block+ds.TagLen)
+				if tr.transport == "direct" {
+					c.KeyKind, c.KeyBytes = "bytes", expand([]byte(id), "k", n)
+				} else {
+					c.KeyKind, c.HasWrappedKey, c.WrappedKey = "rsa-ptr", true, expand([]byte(id), "k", n)
+				}
+				emit(c)
+			}
+		}
+	}
+}
+
 // EncryptionMethod / DigestMethod present twice (identical, or a differing copy first)
 func enumDupMethods(_ string, emit func(Case)) {
 	i := 0
@@ -1995,7 +2280,7 @@ func enumFiles(_ string, emit func(Case)) {
 
 var prop = &pbt.Prop[Case]{
 	ID: "C11",
-	Rule: "cases: reference-built EncryptedData/EncryptedKey trees (5 block ciphers x direct / rsa-oaep-mgf1p / xmlenc11 rsa-oaep / PKCS#1 key transport, nested or sibling key) damaged by one of {replaced cipher value of chosen length, CBC value with chosen final decrypted octet, modified GCM value, embedded-certificate variant, attacker-chosen plaintext shape, ds:RetrievalMethod with benign and hostile URIs (quotes, brackets, path and query metacharacters) x namespace spelling of the document (xenc:/ds:, other prefixes, default namespace, independently for xmlenc and xmldsig) x EncryptedKey Id attributes (fixed / exactly the fragment / hostile / absent) x one or two recipients' keys, 1-4 structural mutations (remove/duplicate/nest/rename elements, added RetrievalMethod / Id attributes / second EncryptedKey, Algorithm attribute edits, bad base64, comments/CDATA/children inside CipherValue, chains of nested EncryptedKey, moved keys), byte mutations of repository corpus documents and of generated documents}, presented to xmlenc.Decrypt with keys of every Go type ([]byte of 0..40 octets, *rsa.PrivateKey, rsa.PrivateKey, *ecdsa.PrivateKey, string, int, nil) and to ServiceProvider.ParseXMLResponse inside an unsigned Response. " +
+	Rule: "cases: reference-built EncryptedData/EncryptedKey trees (5 block ciphers x direct / rsa-oaep-mgf1p / xmlenc11 rsa-oaep / PKCS#1 key transport, nested or sibling key) damaged by one of {replaced cipher value of chosen length, CBC value with chosen final decrypted octet, modified GCM value, embedded-certificate variant, attacker-chosen plaintext shape, ds:RetrievalMethod with benign and hostile URIs (quotes, brackets, path and query metacharacters) x namespace spelling of the document (xenc:/ds:, other prefixes, default namespace, independently for xmlenc and xmldsig) x several sibling EncryptedKeys with ReferenceList/DataReference (URI absent / empty / # / matching / other) x EncryptedData Id (present / absent / empty), keys of a size valid for another variant with ciphertexts that open under that variant, x EncryptedKey Id attributes (fixed / exactly the fragment / hostile / absent) x one or two recipients' keys, 1-4 structural mutations (remove/duplicate/nest/rename elements, added RetrievalMethod / Id attributes / second EncryptedKey, Algorithm attribute edits, bad base64, comments/CDATA/children inside CipherValue, chains of nested EncryptedKey, moved keys), byte mutations of repository corpus documents and of generated documents}, presented to xmlenc.Decrypt with keys of every Go type ([]byte of 0..40 octets, *rsa.PrivateKey, rsa.PrivateKey, *ecdsa.PrivateKey, string, int, nil) and to ServiceProvider.ParseXMLResponse inside an unsigned Response. " +
 		"non-trivial: the element handed over still reaches a registered decrypter (EncryptionMethod/@Algorithm registered, CipherData/CipherValue present) and the case is not an unmodified control. distinct: sha256 of the JSON case.",
 	Gen:   gen,
 	Check: check,
@@ -2008,6 +2293,8 @@ var prop = &pbt.Prop[Case]{
 		{Name: "embedded-certificate-variants", Each: enumCert},
 		{Name: "plaintext-shapes-through-sp", Each: enumPlainSP},
 		{Name: "retrieval-method-uris-x-key-ids-x-layouts", Each: enumRetrieval},
+		{Name: "sibling-keys-x-datareference-uris-x-data-id", Each: enumRefs},
+		{Name: "key-sizes-of-another-variant", Each: enumKeySizes},
 		{Name: "duplicated-encryptionmethod-digestmethod", Each: enumDupMethods},
 		{Name: "repository-documents-x-key-types", Each: enumFiles},
 	},
@@ -2017,7 +2304,8 @@ var prop = &pbt.Prop[Case]{
 		"CBC values whose final octet lies between block size + 1 and the decrypted length are don't-care (W3C forbids them, the package tolerates them)",
 		"the certificate/key consistency rule is judged only for a certificate at EncryptedKey/KeyInfo/X509Data/X509Certificate and a *rsa.PrivateKey key; it is judged whatever prefix (or default namespace) the document binds to xmldsig / xmlenc",
 		"through the SP entry every case must end in an error because nothing in it is signed (with AllowIDPInitiated on or off, RSA or EC SP key)",
-		"which EncryptedKey a RetrievalMethod selects is not judged (the property is silent); only totality and the must-reject classes are",
+		"a key ([]byte handed over directly, or unwrapped from an intact EncryptedKey) whose size differs from the size the DECLARED block algorithm prescribes must be rejected, in particular 16/24/32 (8/24 for 3DES) octets that would be right for another variant; keys of a wrong Go type are judged for totality only",
+		"which EncryptedKey a RetrievalMethod or a ReferenceList/DataReference selects is not judged (the property is silent); only totality and the must-reject classes are",
 		"corpus documents are read from <repo>/xmlenc/{corpus,testdata}/*.xml at run time",
 	},
 }
